@@ -154,7 +154,7 @@ impl Check for C03 {
                             }
                             let scene = Program {
                                 guid: format!("{{layout-{pi}-{n}-{c0}-{c1}-{bi}}}"),
-                                ops: vec![Op::Cloud(prog::CloudSpec { guid: "{c}".into(), proto: proto.clone(), n, seed: 77 + pi as u64, nan_ok: true, meta: Default::default(), finalize: true, clear_limits: 0 })],
+                                ops: vec![Op::Cloud(prog::CloudSpec { guid: "{c}".into(), proto: proto.clone(), n, seed: 77 + pi as u64, nan_ok: true, meta: Default::default(), finalize: true, clear_limits: 0, rejects: vec![] })],
                                 end: prog::End::Finalize,
                             };
                             let mut cl = e57ref::encode::CloudLayout { packets, ..Default::default() };
